@@ -26,7 +26,10 @@ Spec fields (all but the first six optional; defaults reproduce the round-1 runs
   opts           save_top_k / save_last (factors of the grid: they decide whether a checkpoint is written), and
                  nuisance options that must not change the observable behaviour: early_stopping,
                  profiler, steps_per_epoch, chunk_size, scale, crop_auto,
-                 max_epochs, strategy, explicit_names (head part_names / edges spelled out instead of None)
+                 max_epochs, strategy, explicit_names (head part_names / edges spelled out instead of None);
+                 round 5, loader-size parameters: train_bs / val_bs (batch sizes below, equal to and ABOVE the
+                 number of samples; the structured builder has one batch size for both loaders), reduce_lr
+                 (the scheduler that monitors val_loss instead of step_lr)
 """
 from __future__ import annotations
 
@@ -92,6 +95,9 @@ UNET = {"in_channels": 1, "kernel_size": 3, "filters": 4, "filters_rate": 1.5, "
         "up_interpolate": True, "output_stride": 2}
 
 
+REDUCE_LR = {"threshold": 1e-6, "threshold_mode": "abs", "cooldown": 0, "patience": 5, "factor": 0.5, "min_lr": 1e-8}
+
+
 def opt(spec: dict, name: str, default):
     return (spec.get("opts") or {}).get(name, default)
 
@@ -128,8 +134,8 @@ def plain_dict(spec: dict) -> dict:
             "head_configs": head_dict(spec["model_type"], bool(opt(spec, "explicit_names", False))),
         },
         "trainer_config": {
-            "train_data_loader": {"batch_size": 1, "shuffle": False, "num_workers": 0},
-            "val_data_loader": {"batch_size": 1, "shuffle": False, "num_workers": 0},
+            "train_data_loader": {"batch_size": int(opt(spec, "train_bs", 1)), "shuffle": False, "num_workers": 0},
+            "val_data_loader": {"batch_size": int(opt(spec, "val_bs", 1)), "shuffle": False, "num_workers": 0},
             "model_ckpt": {"save_top_k": opt(spec, "save_top_k", 1), "save_last": opt(spec, "save_last", True)},
             "early_stopping": {"stop_training_on_plateau": bool(opt(spec, "early_stopping", False)),
                                "min_delta": 1e-8, "patience": 20},
@@ -147,7 +153,8 @@ def plain_dict(spec: dict) -> dict:
                       "api_key": spec["key"], "prv_runid": None, "group": None},
             "optimizer_name": "Adam",
             "optimizer": {"lr": 1e-4, "amsgrad": False},
-            "lr_scheduler": {"step_lr": {"step_size": 10, "gamma": 0.5}, "reduce_lr_on_plateau": None},
+            "lr_scheduler": ({"step_lr": None, "reduce_lr_on_plateau": dict(REDUCE_LR)} if opt(spec, "reduce_lr", False)
+                             else {"step_lr": {"step_size": 10, "gamma": 0.5}, "reduce_lr_on_plateau": None}),
         },
     }
     # options the structured builder cannot express are only ever set on plain configurations
@@ -188,17 +195,20 @@ def build_structured(spec: dict):
         pretrained_head_weights=None, backbone_config={"unet": dict(UNET)},
         head_configs={k: v for k, v in d["model_config"]["head_configs"].items() if v is not None})
     trainer_config = get_trainer_config(
-        batch_size=1, shuffle_train=False, num_workers=0, ckpt_save_top_k=tc["model_ckpt"]["save_top_k"],
+        batch_size=tc["train_data_loader"]["batch_size"], shuffle_train=False, num_workers=0, ckpt_save_top_k=tc["model_ckpt"]["save_top_k"],
         ckpt_save_last=tc["model_ckpt"]["save_last"],
         trainer_num_devices=1, trainer_accelerator="cpu", enable_progress_bar=False,
         steps_per_epoch=tc["steps_per_epoch"], max_epochs=tc["max_epochs"], seed=1000, use_wandb=tc["use_wandb"], save_ckpt=tc["save_ckpt"],
         save_ckpt_path=tc["save_ckpt_path"], wandb_project="c19", wandb_name="c19_run",
         wandb_api_key=spec["key"], wandb_mode=tc["wandb"]["wandb_mode"], optimizer="Adam", learning_rate=1e-4,
-        lr_scheduler={"step_lr": {"step_size": 10, "gamma": 0.5}},
+        lr_scheduler={k: v for k, v in tc["lr_scheduler"].items() if v is not None},
         early_stopping=tc["early_stopping"]["stop_training_on_plateau"], early_stopping_min_delta=1e-8,
         early_stopping_patience=20)
     tjc = TrainingJobConfig(data_config=data_config, model_config=model_config, trainer_config=trainer_config)
-    return tjc.to_sleap_nn_cfg().copy()
+    cfg = tjc.to_sleap_nn_cfg().copy()
+    if tc["val_data_loader"]["batch_size"] != tc["train_data_loader"]["batch_size"]:
+        raise ValueError("the structured builder has ONE batch size for both loaders")
+    return cfg
 
 
 # --------------------------------------------------------------------------
@@ -432,6 +442,8 @@ def prepare_existing_chunks(spec: dict):
     prep.update({"use_existing": False, "delete_chunks": False, "use_wandb": False, "save_ckpt": False,
                  "out_dir": (Path(spec["in_dir"]) / "prep_out").as_posix(), "opts": dict(spec.get("opts") or {})})
     prep["opts"].pop("profiler", None)
+    for k in ("train_bs", "val_bs", "early_stopping", "reduce_lr"):     # the OBSERVED run is the one under test
+        prep["opts"].pop(k, None)
     cfg = build_structured(prep) if spec["structured"] else build_plain(prep)
     from sleap_nn.training.model_trainer import ModelTrainer
     ModelTrainer(cfg).train()
